@@ -627,6 +627,20 @@ def run_table_special_forms(chk, spec):
 			for j in range(spec["ncols"]):
 				exp[j][1] = newrow[j]
 			label = f"{spec['index']}/{spec['value']}/{spec['ncols']}col"
+		elif what == "bad-column-list-entry":
+			# a column list holding something that is neither a name nor a position: the assignment fails (it used to write nothing and say nothing) and changes nothing
+			t = Table({"a": [1, 2, 3], "b": [4, 5, 6]})
+			before = [list(c._underlying) for c in t.cols()]
+			key = {"float": [1.5], "none-after-name": ["a", None], "float-after-name": ["a", 2.0], "tuple-entry": [("a",)], "bytes": [b"a"], "float-first": [0.0, "b"]}[spec["entry"]]
+			rows = {"int": 0, "slice": slice(None), "mask": [True, False, True]}[spec["rows"]]
+			o = call(t.__setitem__, (rows, key), 5)
+			chk.judged("table-assign", ("table-special", what, spec["entry"], spec["rows"]))
+			after = [list(c._underlying) for c in t.cols()]
+			if o.ok:
+				chk.fail("an assignment whose column selector is invalid fails", f"table-assign/accepted-invalid/bad-column-list-entry/{spec['entry']}", f"{spec!r}: t[{rows!r}, {key!r}] = 5 returned; columns {after!r}")
+			elif after != before and spec["entry"] in ("float", "tuple-entry", "bytes", "float-first"):
+				chk.fail("a failed assignment leaves the table as it was", f"table-assign/not-atomic/bad-column-list-entry/{spec['entry']}", f"{spec!r}: {before!r} -> {after!r}")
+			return
 		elif what == "alias-then-assign":
 			t = Table([Vector([1, 2, 3], name="k"), Vector([4, 5, 6]), Vector([7, 8, 9], name="w")])
 			before = [list(c._underlying) for c in t.cols()]
@@ -1122,6 +1136,9 @@ def run(chk):
 			for ncols in (1, 2):
 				for colform in ("all", "names"):
 					chk.case("table_special_forms", {"what": "row-index-kinds", "index": index, "value": value, "ncols": ncols, "colform": colform}, "table-special-forms")
+	for entry in ("float", "none-after-name", "float-after-name", "tuple-entry", "bytes", "float-first"):
+		for rows in ("int", "slice", "mask"):
+			chk.case("table_special_forms", {"what": "bad-column-list-entry", "entry": entry, "rows": rows}, "table-special-forms")
 	for write in ("cell", "column", "region", "row"):
 		for touch_first in (False, True):
 			chk.case("table_special_forms", {"what": "alias-then-assign", "write": write, "touch_first": touch_first}, "table-special-forms")
